@@ -468,6 +468,10 @@ impl Ctx {
         S::Value: Serialize + Debug + Clone,
         F: Fn(&S::Value, &mut Probe) -> Result<(), Fail> + Sync,
     {
+        if std::env::var_os("VERIF_ONLY_CAMPAIGNS").is_some() {
+            // debugging aid: lets the coverage-guided campaigns of the thorough tier be exercised on their own
+            return;
+        }
         let t0 = Instant::now();
         let workers = self.threads.max(1).min((cases as usize / 200).max(1));
         let per = cases / workers as u32;
